@@ -21,7 +21,7 @@ from harness.engine import Result
 ID = "C19"
 LEVEL = "exploration"
 RULE = ("Hypothesis draws a separable sum of singular primitives (abs, sqrt, log, log2, log10, 1/u, u**k for "
-        "k<1 or fractional, asin, acos, acosh, atanh, 2-norm, 1-norm) on affine arguments, in scalar long-hand "
+        "k<1 or fractional, asin, acos, acosh, atanh, 2-norm (also written sum(x**2)**0.5 and x.dot(x)**0.5), 1-norm, exp at 800 where its derivative overflows) on affine arguments, in scalar long-hand "
         "and vectorised forms (sum(f(x)), sum(x**k), norm), plus regular terms; V full or sparse/permuted; "
         "each coordinate of the point is exactly singular, out of domain, or regular.  compile_gradient, "
         "compile_jacobian, CompiledExpression.gradient and compile_hessian outputs must be finite; regular "
@@ -56,9 +56,11 @@ PRIMS = {
     "acos": (_np1(lambda u: -1.0 / np.sqrt(1.0 - u * u)), None, [1.0, -1.0], [1.5, -2.0]),
     "acosh": (_np1(lambda u: 1.0 / np.sqrt(u * u - 1.0)), None, [1.0], [0.5, 0.0]),
     "atanh": (_np1(lambda u: 1.0 / (1.0 - u * u)), None, [1.0, -1.0], []),
+    # overflow rather than a singularity: exp'(800) is +inf in IEEE double arithmetic at a finite point
+    "exp": (_np1(lambda u: np.exp(u)), _np1(lambda u: np.exp(u)), [800.0], []),
 }
 POWS = [0.5, -1.0, -2.0, 1.5, -0.5, 2.5]
-VEC_SING = ["abs", "sqrt", "log"]
+VEC_SING = ["abs", "sqrt", "log", "exp"]
 REG = ["sin", "exp", "square", "cube", "lin"]
 
 
@@ -138,6 +140,8 @@ def cases(draw):
             k = draw(st.sampled_from(POWS)) if form == "vec_pow" else None
             names = [f"{name}[{i}]" for i in range(n)]
             terms.append({"form": form, "kind": kind, "k": k, "vec": name, "n": n, "rev": rev,
+                          # a 2-norm written by hand: sum(x**2) ** 0.5, x.dot(x) ** 0.5
+                          "style": draw(st.sampled_from(["norm", "norm", "sumsq-pow", "dot-pow"])) if form == "norm2" else None,
                           "names": names[::-1] if rev else names,
                           "scale": draw(st.sampled_from([1, 1, 1, 0.5, 3, -0.1, -1]))})
     if not terms:
@@ -170,7 +174,7 @@ def cases(draw):
             else:
                 outside_ok = (t["form"] == "vec_un" and kind in ("sqrt", "log")) or (t["form"] == "vec_pow" and t["k"] != int(t["k"]))
                 if cls == "singular":
-                    point[nm] = 0.0
+                    point[nm] = 800.0 if (t["form"] == "vec_un" and kind == "exp") else 0.0
                 elif cls == "outside" and outside_ok:
                     point[nm] = draw(st.sampled_from([-1.0, -0.5]))
                 else:
@@ -235,7 +239,12 @@ def _term_recipes(t):
     if t["form"] == "vec_pow":
         return ["vsum", ["vpow", V, t["k"]]], fold([["bin", "**", e, ["const", "pyfloat", t["k"]]] for e in elems])
     if t["form"] == "norm2":
-        return ["norm", V, 2, "method"], ["un", "sqrt", fold([["bin", "*", e, e] for e in elems])]
+        longhand = ["un", "sqrt", fold([["bin", "*", e, e] for e in elems])]
+        if t.get("style") == "sumsq-pow":
+            return ["bin", "**", ["vsum", ["vpow", V, 2]], ["const", "pyfloat", 0.5]], longhand
+        if t.get("style") == "dot-pow":
+            return ["bin", "**", ["dotself", V, "dot"], ["const", "pyfloat", 0.5]], longhand
+        return ["norm", V, 2, "method"], longhand
     return ["norm", V, 1, "method"], fold([["un", "abs", e] for e in elems])
 
 
